@@ -14,6 +14,7 @@ EXHAUSTIVE = True
 EXHAUSTIVE_NOTE = ("256 x 256 types x 2 x 2 x 2 (x 3 sub-segment shapes) = 1 572 864 CanClose calls per value set, all 256 types "
                    "through IsIn/IsOut, and the complete single-field-difference grid of Equal are enumerated on every run; "
                    "the dependence on the field VALUES only through their equalities is the theorem C19_can_close_abstraction")
+TRUSTED_EXTRA = ["Spec/SegRules.v: the golden table (193 entries incl. the 4 breakaway additions) and the in/out lists, transcribed once from the pinned literal"]
 ASSUMPTIONS = ["descriptors are built through CreateSCTE35/CreateSegmentationDescriptor and the setters; a signal 'without PTS' is a "
                "splice_null or a time_signal with the time flag off (its stored pts field still exists and CanClose reads it)"]
 
